@@ -86,6 +86,10 @@ CHECKS = {
             'Plans of 3..30 counterparty messages with up to 3 loss windows and up to 2 disconnects (counterparty keeps numbering; reconnect Logon above the expected number), acceptor/initiator, '
             'file/memory persister; verdict: no sequence-related Logout/Reject/termination, every application id delivered at least once, expected number == counterparty next, state continuous.',
             'Liveness restated as bounded progress (at most 6x(messages+gaps)+40 exchanges until the wire is idle).', '3 C20'),
+    'C21': ('two_sessions', 'exploration', 'runtime monitor: offline checker over the delivery logs of two real sessions (real threads, loopback TCP, file persisters) driven through seeded schedules of sends, connection drops and restarts',
+            'Dozens of schedules per quick run (1500 in thorough) with up to 25 steps and on average 5 faults each, faults hitting traffic in flight, sends into dead connections; at-least-once delivery, first-delivery order, '
+            'PossDup on re-delivery and re-establishment after every reconnect are decided at logical quiescent points.',
+            'Liveness is judged at quiescence with a 20 s watchdog (inconclusive); both sides are rebuilt after every fault; timers stopped with a heartbeat nudge.', '3 C21'),
     'C22': ('session_sim', 'exploration', 'runtime monitor on a virtual clock: timeline model of last-sent/last-received instants decides every supervision tick and every inbound test request',
             'Timelines of up to 80 events with advances placed at H-1ms, H, H+1ms, 1.2H, 1.2H+1ms, floor(1.2H)+1 s for H in {1,2,5,7,10,30,60}; Heartbeat when due, TestRequest not early and not late, '
             'Logout only after a further period, TestReqID echoed, answering Heartbeat restores continuous. One recorded finding (Logout at the tick after the TestRequest; pinned by the repository\'s own test).',
@@ -175,6 +179,7 @@ def main():
             {'name': 'reader_frame', 'path': 'harness/reader_frame.cpp', 'serves_properties': ['C15'], 'kind_free_text': 'real connection reader vs generated streams and chunkings'},
             {'name': 'conc_send', 'path': 'harness/conc_send.cpp', 'serves_properties': ['C25'], 'kind_free_text': 'concurrent senders, wire reader, store read-back; tsan and asan flavours'},
             {'name': 'f8c_pipeline', 'path': 'checks/f8c.py', 'serves_properties': ['C13', 'C14'], 'kind_free_text': 'pylib/schemagen.py + tools/build.py build_gen + harness/meta_dump.cpp + codec_exec compiled against the generated schema'},
+            {'name': 'two_sessions', 'path': 'harness/two_sessions.cpp', 'serves_properties': ['C21'], 'kind_free_text': 'initiator + acceptor in one process, fault schedules, delivery-log checker'},
             {'name': 'persist_model', 'path': 'harness/persist_model.cpp', 'serves_properties': ['C26'], 'kind_free_text': 'random API histories vs map model'},
             {'name': 'persist_crash', 'path': 'harness/persist_crash.cpp', 'serves_properties': ['C27'], 'kind_free_text': 'fork + write/lseek countdown crash injection, reopen oracle'},
             {'name': 'logger_stress', 'path': 'harness/logger_stress.cpp', 'serves_properties': ['C28'], 'kind_free_text': 'producer threads + offline exactly-once/order checker'},
